@@ -185,6 +185,9 @@ class Executor:
         o.inputs = dict(self.inputs)
         o.trivial = z3.is_true(goal) or (not z3.is_quantifier(goal) and z3.is_true(simp(goal)))
         self.obls.append(o)
+        if ".callreq" in oid or "ghost_assert" in oid:
+            # the clauses that carry a property at a specific site must not hold vacuously: the site is reachable
+            self.covers.append((f"{self.c.qual}/{oid}.cover", list(st.pc)))
 
     def assume_log(self, what):
         self.assumption_log.add(what)
@@ -616,6 +619,18 @@ class Executor:
         """An iterable value as an indexable View (snapshot of the current state)."""
         if isinstance(v, View):
             return v
+        if isinstance(v, MemView):
+            # an iterable known only through membership: an enumeration of unknown length, order and multiplicity,
+            # every element of which satisfies the membership predicate
+            n = fresh("mv_len", z3.IntSort())
+            st.assume(n >= 0)
+            f = z3.Function(str(fresh("mv_at", z3.IntSort())), z3.IntSort(), v.elt_t.sort())
+
+            def at(i, v=v, f=f, n=n):
+                tgt = self.view_st if self.view_st is not None else st
+                tgt.assume(z3.Implies(z3.And(0 <= i, i < n), v.pred(f(i))))
+                return self.valid_ref(tgt, Val(v.elt_t, f(i)))
+            return View(n, at, v.elt_t)
         if isinstance(v, Unknown) or (self.lenient and (isinstance(v, BoundMethod) or (
                 isinstance(v, Val) and isinstance(v.t, Opaque) and v.t.nm == "Any"))):
             n = fresh("unk_len", z3.IntSort())
